@@ -486,6 +486,12 @@ def configs(
     if draw(st.integers(0, 9)) == 0:
         # the mode given as the equal plain string (Mode is a StrEnum)
         cfg['mode_as_str'] = True
+    # cards arguments of operations in another of their documented forms
+    # (CardsLike: text, list, one-shot iterator, generator)
+    form = draw(st.sampled_from([None, None, None, 'list', 'iter', 'gen',
+                                 'str']))
+    if form:
+        cfg['arg_form'] = form
     if mode == 'C' and nboards >= 1 and (
             game in BOARD_GAMES or (cdesc and cdesc['board'] > 0)):
         cfg['force_runouts'] = draw(st.sampled_from([None, None, 2, 2, 3]))
